@@ -331,6 +331,35 @@ VARIANTS = [
      rep(FHS, "if hex_digest_stored != checksum.lower():", "if not __import__(\"hmac\").compare_digest(hex_digest_stored, checksum.lower()):")) if False else
     ("C06", "C06.b", "duplicate branch validates the size against itself",
      rep_in(FHS, "_move_and_get_checksums", "                    tmp_file_size,\n                    file_size_to_validate,\n                )\n            except NonMatchingObjSize as nmose:", "                    tmp_file_size,\n                    tmp_file_size,\n                )\n            except NonMatchingObjSize as nmose:")),
+    ("C01", "C01.d", "stream not rewound before reading",
+     rep_in(FHS, "__iter__", "        self._obj.seek(0)\n\n        while True:", "        while True:")),
+    ("C01", "C01.d", "caller's offset not restored after iteration",
+     rep_in(FHS, "__iter__", "        if self._pos is not None:\n            self._obj.seek(self._pos)\n", "")),
+    ("C01", "C01.d", "_cast_to_bytes encodes with latin-1",
+     rep_in(FHS, "_cast_to_bytes", 'text = bytes(text, "utf8")', 'text = bytes(text, "latin-1")')),
+    ("C12", "C12.f", "delete-all removes the pid's metadata directory",
+     rep_in(FHS, "delete_metadata", "                self._delete_marked_files(objects_to_delete)\n                info_string = (\"Successfully deleted all", "                self._delete_marked_files(objects_to_delete)\n                shutil.rmtree(metadata_rel_path)\n                info_string = (\"Successfully deleted all")),
+    ("C13", "C13.g", "a permanent metadata path queued for the swallowing remover",
+     rep_in(FHS, "delete_metadata", "                            objects_to_delete.append(\n                                self._rename_path_for_deletion(path)\n                            )\n", "                            objects_to_delete.append(str(path))\n")),
+    ("C15", "C15.e", "_computehash hashes only a prefix",
+     rep_in(FHS, "_computehash", "        for data in stream:\n            hash_obj.update(self._cast_to_bytes(data))\n", "        for data in stream[:4096]:\n            hash_obj.update(self._cast_to_bytes(data))\n")),
+    ("C18", "C18.e", "_computehash looks at the file system",
+     rep_in(FHS, "_computehash", "        for data in stream:\n", "        if isinstance(stream, str) and os.path.isfile(stream):\n            stream = open(stream, \"rb\")\n        for data in stream:\n")),
+    ("C16", "C16.c", "conditional expression picks another list in mp mode",
+     rep_in(FHS, "_check_object_locked_cids", "        if self.use_multiprocessing:\n            if cid not in self.object_locked_cids_mp:", "        probe = self.object_locked_pids_mp if self.use_multiprocessing else self.object_locked_cids_th\n        if self.use_multiprocessing:\n            if cid not in self.object_locked_cids_mp:")),
+    ("C20", "C20.d", "option defaulted with `or`",
+     rep_in(CLI, "main", '    formatid = getattr(args, "object_formatid")\n    if formatid is None:\n        formatid = default_formatid\n', '    formatid = getattr(args, "object_formatid") or default_formatid\n')),
+    ("C02", "C02.e", "case-sensitive family test in _clean_algorithm",
+     rep_in(FHS, "_clean_algorithm", "        if count > 3:", '        if algorithm_string.startswith("sha3"):')),
+    ("C07", "C07.f", "release widened over the try-claim rejection",
+     rep_in(FHS, "store_object", "            except Exception as err:\n                err_msg = (\n                    f\"Failed to store object for pid: {pid}. Reference files will not be \"", "            except Exception as err:\n                self._release_object_locked_pids(pid)\n                err_msg = (\n                    f\"Failed to store object for pid: {pid}. Reference files will not be \"")),
+    ("C04", "C04.b", "reference list tested before the cid claim only",
+     rep_in(FHS, "_delete_object_only", "            self._synchronize_object_locked_cids(cid)\n            if os.path.isfile(cid_refs_abs_path):", "            refs_exist = os.path.isfile(cid_refs_abs_path)\n            self._synchronize_object_locked_cids(cid)\n            if refs_exist:")),
+    ("C03", "C03.f", "pid-reference test hoisted in front of the tagging claim",
+     chain(rep_in(FHS, "_store_hashstore_refs_files", "        try:\n            self._synchronize_referenced_locked_pids(pid)\n", "        pid_bound = os.path.isfile(self._get_hashstore_pid_refs_path(pid))\n        try:\n            self._synchronize_referenced_locked_pids(pid)\n"),
+           rep_in(FHS, "_store_hashstore_refs_files", "                if os.path.isfile(pid_refs_path) and os.path.isfile(cid_refs_path):", "                if pid_bound and os.path.isfile(cid_refs_path):"),
+           rep_in(FHS, "_store_hashstore_refs_files", "                elif os.path.isfile(pid_refs_path) and not os.path.isfile(\n                    cid_refs_path\n                ):", "                elif pid_bound and not os.path.isfile(cid_refs_path):"),
+           rep_in(FHS, "_store_hashstore_refs_files", "                elif not os.path.isfile(pid_refs_path) and os.path.isfile(\n                    cid_refs_path\n                ):", "                elif not pid_bound and os.path.isfile(cid_refs_path):"))),
 ]
 
 
